@@ -17,11 +17,11 @@ def check(repo, rep, tier):
                        'implementations; every term class implements the whole interface; atoms unify by name and are interned '
                        'per instance, with the engine\'s constant atoms re-interned whenever the table is reset. That '
                        'unquoteString inverts the lexer\'s quoting, numeric values and to_python results as values are NOT decided.')
-    rs.rule_constant_agreement(em, rep, 'C16.A1')
-    rs.rule_interface_complete(em, rep, 'C16.A2')
-    rc.rule_exhaustive(cm, rep, 'C16.A3')
-    rd.rule_clear_resets(em, rep, 'C16.A4')
-    re_.rule_callee_whitelist(cm, em, rep, 'C16.A5')
+    rep.run(rs.rule_constant_agreement, em, rep, 'C16.A1')
+    rep.run(rs.rule_interface_complete, em, rep, 'C16.A2')
+    rep.run(rc.rule_exhaustive, cm, rep, 'C16.A3')
+    rep.run(rd.rule_clear_resets, em, rep, 'C16.A4')
+    rep.run(re_.rule_callee_whitelist, cm, em, rep, 'C16.A5')
     # strings only via repr: the hole of YPCodeExpr
     table = [(m, h, pos, ms) for m, h, pos, ms in re_.hole_table(cm) if m == 'generate_expr']
     rep.rule('C16.A6', 'the text of atoms and functor names reaches the generated code only through repr()')
@@ -32,6 +32,6 @@ def check(repo, rep, tier):
         else:
             rep.violation('C16.A6', 'generate_expr:%s' % h, 'atom text is pasted without repr(): the run-time string differs from the source string', h.func.loc())
     rep.minimum('string literal templates', len(table), 1)
-    rc.rule_list_order(cm, rep, 'C16.A7')
-    re_.rule_unquote_delimiters(cm, rep, 'C16.A8')
-    re_.rule_anonymous_variables(cm, rep, 'C16.A9')
+    rep.run(rc.rule_list_order, cm, rep, 'C16.A7')
+    rep.run(re_.rule_unquote_delimiters, cm, rep, 'C16.A8')
+    rep.run(re_.rule_anonymous_variables, cm, rep, 'C16.A9')
